@@ -29,6 +29,7 @@ func (*TumblingWindow).createSlotFromStart
 
 func (*TumblingWindow).NextSlot
   props C01
+  held tw.mu
   requires tw.currentSlot != nil ==> tw.currentSlot.End != nil
   ensures nil: tw.currentSlot == nil ==> result == nil
   ensures fresh: tw.currentSlot != nil ==> fresh(result)
@@ -107,4 +108,75 @@ func (*Watermark).IsEventTimeLate
   props C01 C02
   acquires wm.mu
   ensures late-iff-below-watermark: result == (!zero(wm.currentWatermark) && eventTime < wm.currentWatermark)
+@*/
+
+/*@
+recfunc stampAll((a (Array Int S_types.Row)) (n Int) (slot Int)) Slice_S_types.Row := (ite (<= n 0) (mkSlice_S_types.Row ((as const (Array Int S_types.Row)) (mkS_types.Row (- 62135596800000000000) VNil 0)) 0 false) (let ((r (@stampAll a (- n 1) slot)) (x (select a (- n 1)))) (mkSlice_S_types.Row (store (Slice_S_types.Row.arr r) (Slice_S_types.Row.len r) (mkS_types.Row (S_types.Row.Timestamp x) (S_types.Row.Data x) slot)) (+ (Slice_S_types.Row.len r) 1) false)))
+
+recfunc rowsInFrom((init Slice_S_types.Row) (a (Array Int S_types.Row)) (n Int) (lo Int) (hi Int) (slot Int)) Slice_S_types.Row := (ite (<= n 0) init (let ((r (@rowsInFrom init a (- n 1) lo hi slot)) (x (select a (- n 1)))) (ite (and (<= lo (S_types.Row.Timestamp x)) (< (S_types.Row.Timestamp x) hi)) (mkSlice_S_types.Row (store (Slice_S_types.Row.arr r) (Slice_S_types.Row.len r) (mkS_types.Row (S_types.Row.Timestamp x) (S_types.Row.Data x) slot)) (+ (Slice_S_types.Row.len r) 1) false) r)))
+
+recfunc rowsFrom((a (Array Int S_types.Row)) (n Int) (lo Int)) Slice_S_types.Row := (ite (<= n 0) (mkSlice_S_types.Row ((as const (Array Int S_types.Row)) (mkS_types.Row (- 62135596800000000000) VNil 0)) 0 false) (let ((r (@rowsFrom a (- n 1) lo)) (x (select a (- n 1)))) (ite (<= lo (S_types.Row.Timestamp x)) (mkSlice_S_types.Row (store (Slice_S_types.Row.arr r) (Slice_S_types.Row.len r) x) (+ (Slice_S_types.Row.len r) 1) false) r)))
+
+guarded_by TumblingWindow.mu: data, currentSlot, initialized, triggeredWindows, callback
+monitor TumblingWindow.mu inv twInv
+
+pred twInv(tw) := tw.size > 0
+  && (tw.initialized ==> tw.currentSlot != nil)
+  && (tw.currentSlot != nil ==> slotOK(tw.currentSlot, tw.size) && *tw.currentSlot.Start % tw.size == 0)
+  && tw.triggeredWindows != nil
+  && forallv(k, "", dom(tw.triggeredWindows, k) ==> tw.triggeredWindows[k] != nil && slotOK(tw.triggeredWindows[k].slot, tw.size))
+
+extern extractTimestamp
+  option pure
+
+func (*TumblingWindow).getWindowKey
+  props C02
+  option pure
+
+func (*TumblingWindow).sendResult
+  props C01
+  ensures true
+
+func (*TumblingWindow).extractLateUpdateDataLocked
+  props C02
+  held tw.mu
+  requires slot != nil && slot.Start != nil && slot.End != nil
+  requires forallv(k, "", dom(tw.triggeredWindows, k) ==> tw.triggeredWindows[k] != nil)
+  modifies tw.data, heap(triggeredWindowInfo.snapshotData)
+  ensures late-batch: len(result) > 0 ==> result == rowsInFrom(stampAll(arr(old(tw.triggeredWindows[getWindowKey(tw, *slot.End)].snapshotData)), ite(dom(tw.triggeredWindows, getWindowKey(tw, *slot.End)), len(old(tw.triggeredWindows[getWindowKey(tw, *slot.End)].snapshotData)), 0), slot), arr(old(tw.data)), len(old(tw.data)), *slot.Start, *slot.End, slot)
+  ensures evicted: tw.data == rowsOut(arr(old(tw.data)), len(old(tw.data)), *slot.Start, *slot.End)
+  ensures snapshot-updated: len(result) > 0 && dom(tw.triggeredWindows, getWindowKey(tw, *slot.End)) ==> len(tw.triggeredWindows[getWindowKey(tw, *slot.End)].snapshotData) == len(result) && forall(k, 0, len(result), tw.triggeredWindows[getWindowKey(tw, *slot.End)].snapshotData[k].Data == result[k].Data && tw.triggeredWindows[getWindowKey(tw, *slot.End)].snapshotData[k].Timestamp == result[k].Timestamp && tw.triggeredWindows[getWindowKey(tw, *slot.End)].snapshotData[k].Slot == slot)
+  loop 1 invariant resultData == stampAll(arr($s), $i, slot)
+  loop 2 invariant resultData == rowsInFrom(stampAll(arr(old(tw.triggeredWindows[getWindowKey(tw, *slot.End)].snapshotData)), ite(dom(tw.triggeredWindows, getWindowKey(tw, *slot.End)), len(old(tw.triggeredWindows[getWindowKey(tw, *slot.End)].snapshotData)), 0), slot), arr($s), $i, *slot.Start, *slot.End, slot)
+  loop 2 invariant kept == rowsOut(arr($s), $i, *slot.Start, *slot.End)
+  loop 3 invariant len(windowInfo.snapshotData) == len(resultData) && windowInfo != nil
+  loop 3 invariant forall(k, 0, $i, windowInfo.snapshotData[k].Data == resultData[k].Data && windowInfo.snapshotData[k].Timestamp == resultData[k].Timestamp && windowInfo.snapshotData[k].Slot == slot)
+
+func (*TumblingWindow).handleLateData
+  props C02
+  held tw.mu
+  requires twInv(tw)
+  modifies *
+  ensures still-locked: held(tw.mu) && wheld(tw.mu)
+  ensures inv: twInv(tw)
+  loop 1 invariant held(tw.mu) && wheld(tw.mu) && twInv(tw)
+
+func (*TumblingWindow).closeExpiredWindows
+  props C02
+  held tw.mu
+  requires twInv(tw)
+  modifies tw.data, mapof(tw.triggeredWindows)
+  ensures expiry-rule: forallv(k, "", dom(tw.triggeredWindows, k) <==> old(dom(tw.triggeredWindows, k)) && watermarkTime < old(tw.triggeredWindows[k].closeTime))
+  ensures survivors-unchanged: forallv(k, "", dom(tw.triggeredWindows, k) ==> tw.triggeredWindows[k] == old(tw.triggeredWindows[k]))
+  ensures inv: twInv(tw)
+  loop 1 invariant forallv(k, "", dom(tw.triggeredWindows, k) <==> old(dom(tw.triggeredWindows, k)) && !($visited[k] && watermarkTime >= old(tw.triggeredWindows[k].closeTime)))
+  loop 1 invariant forallv(k, "", dom(tw.triggeredWindows, k) ==> tw.triggeredWindows[k] == old(tw.triggeredWindows[k]))
+  loop 1 invariant forall(j, 0, len(expiredWindows), expiredWindows[j] != nil && slotOK(expiredWindows[j], tw.size))
+
+func (*TumblingWindow).checkAndTriggerWindows
+  props C01 C02
+  acquires tw.mu
+  modifies *
+  before extractWindowDataLocked fire-only-closed-windows: *tw.currentSlot.End <= watermarkTime
+  loop 1 invariant held(tw.mu) && wheld(tw.mu) && twInv(tw)
 @*/
